@@ -16,6 +16,7 @@ import pandas as pd
 import vlib
 from vlib import Run, zlit, coq_list, coq_bool, coq_string, coq_opt
 import translate_splits
+import translate_select
 
 warnings.simplefilter("ignore")
 IMPORTS = "From Coq Require Import QArith PrimFloat.\nFrom V Require Import Model.Splits Model.SplitsCal Model.SplitsRun Model.SelCrit Model.SelCritF."
@@ -1118,6 +1119,7 @@ def main():
         "correspondence is sampled except where stated exhaustive (all generated splits, all 16 flag combinations)",
     ]
     run.cov["trusted_base"] += ["harness/c13.py (generators, adapters, literal oracles)", "harness/translate_splits.py",
+                                "harness/translate_select.py (Python ast -> expr / loop_shape; inlines local variables; fail-closed)",
                                 "CPython datetime (month, isoweekday); pydantic/pandas behaviour only through the sampled correspondence"]
     info = None
     try:
@@ -1126,13 +1128,26 @@ def main():
         run.proof_ok = False
         run.proof_log += "translator harness/translate_splits.py failed: %s: %s" % (type(e).__name__, e)
         run.log("TRANSLATOR FAILED: %s: %s" % (type(e).__name__, e))
+    sel_info = None
+    try:
+        sel_info = translate_select.generate(run)
+    except Exception as e:  # noqa  (fail closed: source text the translator does not understand is a broken tie)
+        run.proof_ok = False
+        run.proof_log += "translator harness/translate_select.py failed: %s: %s" % (type(e).__name__, e)
+        run.log("TRANSLATOR FAILED (selection source text): %s: %s" % (type(e).__name__, e))
+    if sel_info is not None:
+        run.cov["samples"].append({"translator_select": {"best_loop": {k: sel_info["model"][k] for k in (
+            "init", "iter", "crit_call", "cmp", "new_on_left", "extra_conditions", "updates_name", "updates_crit",
+            "other_statements", "returns_name")}, "bic_expression": dict(sel_info["criteria"]["branches"]).get("bic"),
+            "criteria": [n for n, _ in sel_info["criteria"]["branches"]], "nll_guards": sel_info["criteria"]["nll_guards"]}})
     if info is not None:
         run.cov["samples"].append({"translator": {"seasonal_options": info["seasonal_options"], "n_splits": len(info["all_splits"]),
                                                   "first_splits": info["all_splits"][:6], "combo_seasons": info["combo_seasons"],
                                                   "combo_days": info["combo_days"]}})
         check_generated(run, info)
         run.log("translator done, %d candidate splits" % len(info["all_splits"]))
-        run.check_proofs("Properties/C13.v", ["Proofs/SplitsProofs.v", "Proofs/SelCritProofs.v"], generated=["Generated/SplitsGen.v"])
+        run.check_proofs("Properties/C13.v", ["Proofs/SplitsProofs.v", "Proofs/SelCritProofs.v", "Proofs/SelectProofs.v", "Proofs/SelectRProofs.v"],
+                         generated=["Generated/SplitsGen.v"] + (["Generated/SelectGen.v"] if sel_info is not None else []))
         run.cov["exhaustive"] = False     # the finite parts below are enumerated completely; fits / criteria tables / date sets are sampled
         run.cov["exhaustive_over"] = [
             "all %d regenerated candidate splits (exact cover: vm_compute theorem + Python oracle)" % len(info["all_splits"]),
